@@ -15,10 +15,11 @@ CountOfEnt(len) == (len * 3) \div 4     \* words for an entropy of len bytes (16
 ValidEntLens == {16, 20, 24, 28, 32}
 
 \* ---- tokenisation ----------------------------------------------------------
-StdWs  == {9, 10, 13, 32}               \* TAB LF CR SPACE: must separate
-\* other Unicode White_Space: the property says "whitespace-separated" without
-\* naming these, so a phrase containing one is an OPEN class
-OpenWs == {11, 12, 133, 160, 5760, 8232, 8233, 8239, 8287, 12288} \cup (8192..8202)
+\* Whitespace: the Unicode White_Space characters (what `str::split_whitespace` separates on): TAB LF VT FF CR
+\* SPACE NEL NBSP OGHAM-SPACE EN-QUAD..HAIR-SPACE LINE-SEP PARA-SEP NNBSP MMSP IDEOGRAPHIC-SPACE.  The property
+\* says "whitespace-separated ... arbitrary whitespace layout", so every one of them separates words.
+StdWs  == {9, 10, 11, 12, 13, 32, 133, 160, 5760, 8232, 8233, 8239, 8287, 12288} \cup (8192..8202)
+OpenWs == {}
 
 RECURSIVE TokGo(_, _, _, _, _)
 TokGo(cps, ws, i, cur, acc) ==
